@@ -45,6 +45,7 @@ SHAPE_USERS = {
     "retryable": ("C10",),
     "forwarders": ("C16",),
     "features": ("C18",),
+    "exit": ("C03", "C01"),
     "pin_dd": ("C14", "C15"),
     "pin_metrics": ("C20",),
 }
@@ -409,7 +410,8 @@ def main():
         # the proof or the correspondence no longer checks: search for a concrete failing input
         # (same families, doubled budget, another seed), judged by the monitors alone
         cfg2 = dict(cfg)
-        cfg2["families"] = [(f, ft, n * 2) for (f, ft, n) in cfg["families"]]
+        # (for the bounded-exhaustive family n is a sequence length: one longer, not twice as long)
+        cfg2["families"] = [(f, ft, n + 1 if f == "exh" else n * 2) for (f, ft, n) in cfg["families"]]
         runs2, _ = run_family_set(pid, cfg2, tier, seed + 7777)
         for r in runs2:
             mf = monitor_failures(pid, cfg, r["script"])
